@@ -91,8 +91,16 @@ func MarshalValue(self Value, isInner bool) (out interface{}, skipNull bool) {
 			return nil, false
 		}
 	default:
-		panic(fmt.Sprintf("Cannot encode value of type '%v' to JSON", self.Kind()))
+		return unsupportedJson{kind: self.Kind()}, false
 	}
+}
+
+// Makes `json.Marshal` fail for values which have no JSON representation (ranges, functions, ...),
+// so that `to_json` reports a JSON error instead of crashing the host.
+type unsupportedJson struct{ kind ValueKind }
+
+func (u unsupportedJson) MarshalJSON() ([]byte, error) {
+	return nil, fmt.Errorf("Cannot encode value of type '%v' to JSON", u.kind)
 }
 
 func TypeAwareUnmarshalValue(self interface{}, typ ast.Type) *Value {
